@@ -11,4 +11,8 @@ open OLP.Expect
 
 theorem signers_as_classified : OLP.Gen.signerRows = signerRows := by decide
 
+/-- the coin / balance-store / fee-step / transfer functions the ledger model ports are unchanged -/
+theorem ledger_leaves_source_pinned :
+    OLP.Expect.pinnedOf OLP.Gen.pinned (pinnedLedger.map (fun r => r.fn)) = pinnedLedger := by decide
+
 end OLP.Props.C03.Facts
